@@ -93,6 +93,8 @@ func c13Edits(c *Check, corpus []CorpusProg, limit int, r *rand.Rand) []c13Input
 				})}})
 			}
 			out = append(out, c13Input{key: fmt.Sprintf("edit/truncate/%s@%d", p.Name, si), files: map[string]string{"main.tsh": p.Src[:rt[idx].Start]}})
+			// the file ends exactly with this token (no blank, no line break behind it)
+			out = append(out, c13Input{key: fmt.Sprintf("edit/truncate-after/%s@%d", p.Name, si), files: map[string]string{"main.tsh": p.Src[:rt[idx].End]}})
 			for ri, rep := range c13Replacements {
 				rep := rep
 				out = append(out, c13Input{key: fmt.Sprintf("edit/replace#%d/%s@%d", ri, p.Name, si), files: map[string]string{"main.tsh": build(func(i int, t RTok) string {
@@ -186,6 +188,16 @@ func c13NearMisses() []c13Input {
 		} {
 			out = append(out, c13Input{key: fmt.Sprintf("nearmiss/%s/%d", call, i), files: map[string]string{"main.tsh": pre + strings.ReplaceAll(t, "$X", call) + "\n"}})
 		}
+	}
+	// files that end right after a given token (no blank, no line break), alone on the last line and after an operand
+	for ti, tk := range c13Replacements {
+		if tk == "\n" {
+			continue
+		}
+		out = append(out, c13Input{key: fmt.Sprintf("nearmiss/ends-with/%d/alone", ti), files: map[string]string{"main.tsh": "x := 1\ns := []int{1}\n" + tk}})
+		out = append(out, c13Input{key: fmt.Sprintf("nearmiss/ends-with/%d/after-operand", ti), files: map[string]string{"main.tsh": "x := 1\ns := []int{1}\nx " + tk}})
+		out = append(out, c13Input{key: fmt.Sprintf("nearmiss/ends-with/%d/in-block", ti), files: map[string]string{"main.tsh": "x := 1\nfunc f() {\n\tif x == 1 {\n\t\t" + tk}})
+		out = append(out, c13Input{key: fmt.Sprintf("nearmiss/ends-with/%d/in-import", ti), files: map[string]string{"main.tsh": "import m \"lib.tsh\"\n", "lib.tsh": "y := 2\n" + tk}})
 	}
 	for i, s := range []string{
 		"func f() () {\n}\n", "func f() (,) {\n}\n", "func f(a) {\n}\n", "func f(a int,) {\n}\n", "func () {\n}\n", "func f {\n}\n", "func f() int\n", "func f() {", "func f() {\n", "func\n",
@@ -434,7 +446,7 @@ func c13StdGraphs() ([]c13Input, map[string]string) {
 }
 
 func checkC13(c *Check) {
-	c.Rule = "hostile inputs fed to the real Transpile in child worker processes (recover + death/hang detection + isolated confirmation): all single-token edits (delete, duplicate, swap, truncate, replace by 66 representative lexemes) of a corpus of valid programs (sampled in the quick tier), random double edits, random bytes / token-alphabet bytes / token soups, semantic near-misses (void and multi-value calls at every operand position, malformed headers and literals), an argument matrix (52 operand positions of builtins, indexing forms and statements x 40 kinds of expression), the cells of C06's typing table and C07's scope table (every typed position x every kind of offered expression; every statement at every site), control-flow/definition statements placed in all pairs of 14 enclosing contexts (open and already closed loops, switch cases, functions, branches), configurations (missing/empty/directory main file, broken imports, all 512 import graphs over three files incl. self- and mutual imports, all 16 graphs over two modules of the std directory in both import styles reached from the main file and from a local library, chains of 40 files, call graphs with shared callees: Fibonacci-style up to 200 functions, layered 3x30 and 5x12, chains of 300); oracle = result-shape predicate (exactly one of script / error, non-empty error text, no panic, no worker death, return within the bound) for both targets. Non-trivial = every input; distinct = SHA-256 of the input files"
+	c.Rule = "hostile inputs fed to the real Transpile in child worker processes (recover + death/hang detection + isolated confirmation): all single-token edits (delete, duplicate, swap, truncate before and right after the token, replace by 66 representative lexemes) of a corpus of valid programs (sampled in the quick tier), random double edits, random bytes / token-alphabet bytes / token soups, semantic near-misses (void and multi-value calls at every operand position, malformed headers and literals), an argument matrix (52 operand positions of builtins, indexing forms and statements x 40 kinds of expression), the cells of C06's typing table and C07's scope table (every typed position x every kind of offered expression; every statement at every site), control-flow/definition statements placed in all pairs of 14 enclosing contexts (open and already closed loops, switch cases, functions, branches), configurations (missing/empty/directory main file, broken imports, all 512 import graphs over three files incl. self- and mutual imports, all 16 graphs over two modules of the std directory in both import styles reached from the main file and from a local library, chains of 40 files, call graphs with shared callees: Fibonacci-style up to 200 functions, layered 3x30 and 5x12, chains of 300); oracle = result-shape predicate (exactly one of script / error, non-empty error text, no panic, no worker death, return within the bound) for both targets. Non-trivial = every input; distinct = SHA-256 of the input files"
 	c.Assumptions = []string{"termination bound: 20 s in a loaded worker, then 90 s alone in a fresh worker; a hit is reported only after the isolated confirmation (normal cost is milliseconds)", "worker stack limit 256 MiB so that unbounded recursion dies quickly"}
 	runProbes(c, bashProbeJudge)
 	r := rand.New(rand.NewSource(c.Seed*13000027 + 3))
